@@ -21,6 +21,7 @@ mod c12;
 mod c12_world;
 mod c13;
 mod c14;
+mod c15;
 mod c16;
 mod c16_world;
 mod c18;
@@ -89,6 +90,7 @@ fn main() {
         "C12" => c12::run(tier),
         "C13" => c13::run(tier),
         "C14" => c14::run(tier),
+        "C15" => c15::run(tier),
         "C16" => c16::run(tier),
         "C18" => c18::run(tier),
         "C19" => c19::run(tier),
@@ -124,6 +126,7 @@ fn main() {
         "C12" => c12::replay(&sub, &v["witness"]),
         "C13" => c13::replay(&sub, &v["witness"]),
         "C14" => c14::replay(&sub, &v["witness"]),
+        "C15" => c15::replay(&sub, &v["witness"]),
         "C16" => c16::replay(&sub, &v["witness"]),
         "C18" => c18::replay(&sub, &v["witness"]),
         "C19" => c19::replay(&sub, &v["witness"]),
